@@ -3,9 +3,12 @@ package server
 import (
 	"context"
 	"path/filepath"
+	"strings"
 
 	"go.lsp.dev/protocol"
 
+	"github.com/juev/hledger-lsp/internal/ast"
+	"github.com/juev/hledger-lsp/internal/lsputil"
 	"github.com/juev/hledger-lsp/internal/parser"
 )
 
@@ -28,6 +31,7 @@ func (s *Server) DocumentLink(ctx context.Context, params *protocol.DocumentLink
 	currentDir := filepath.Dir(currentPath)
 
 	var links []protocol.DocumentLink
+	lines := strings.Split(doc, "\n")
 
 	for _, inc := range journal.Includes {
 		includePath := inc.Path
@@ -39,19 +43,37 @@ func (s *Server) DocumentLink(ctx context.Context, params *protocol.DocumentLink
 		target := protocol.DocumentURI("file://" + includePath)
 
 		links = append(links, protocol.DocumentLink{
-			Range: protocol.Range{
-				Start: protocol.Position{
-					Line:      uint32(inc.Range.Start.Line - 1),
-					Character: uint32(inc.Range.Start.Column - 1),
-				},
-				End: protocol.Position{
-					Line:      uint32(inc.Range.End.Line - 1),
-					Character: uint32(inc.Range.End.Column - 1),
-				},
-			},
+			Range:  includePathRange(lines, inc),
 			Target: target,
 		})
 	}
 
 	return links, nil
+}
+
+// includePathRange returns the range of the path of an include directive (the clickable
+// text), in UTF-16 code units. If the path is not found literally on the directive's line
+// the range of the whole directive is returned.
+func includePathRange(lines []string, inc ast.Include) protocol.Range {
+	whole := *astRangeToProtocol(inc.Range)
+	lineIdx := inc.Range.Start.Line - 1
+	if lineIdx < 0 || lineIdx >= len(lines) {
+		return whole
+	}
+	line := lines[lineIdx]
+	kw := strings.Index(line, "include")
+	if kw == -1 {
+		return whole
+	}
+	from := kw + len("include")
+	idx := strings.Index(line[from:], inc.Path)
+	if idx == -1 {
+		return whole
+	}
+	start := lsputil.ByteOffsetToUTF16(line, from+idx)
+	end := start + lsputil.UTF16Len(inc.Path)
+	return protocol.Range{
+		Start: protocol.Position{Line: uint32(lineIdx), Character: uint32(start)},
+		End:   protocol.Position{Line: uint32(lineIdx), Character: uint32(end)},
+	}
 }
